@@ -124,6 +124,9 @@ func c07Opts(name string) *buildOpts {
 				s.SetValidityPolicy(func(...any) error { return errCat })
 			}
 		}}
+	case "conditions-frozen-after":
+		// every Condition is barred from nesting AFTER it got its expression (which stays), and made parenthetical
+		return &buildOpts{fwd: true, condAfter: func(c stackage.Condition) { c.SetNoNesting(true).SetParen(true).SetNoPadding(true) }}
 	case "locked-down":
 		return &buildOpts{neg: true, after: func(s stackage.Stack, path string) {
 			s.SetMutex().SetFIFO(true).SetNoNesting(true).SetReadOnly(true)
@@ -175,6 +178,8 @@ func c07Trees(c *Ctx) []node {
 		nested = append(nested, genStacks(1, 1, 3, atoms[:2], []string{"PA", "CA", "AS"}, kinds)...)
 		nested = append(nested, genStacks(1, 1, 2, []node{{T: "leaf"}, {T: "CCL"}}, []string{"CCS", "S"}, kinds)...) // Condition aliases
 	}
+	// three pointer hops above a Stack / a Condition: a way down like one hop
+	nested = append(nested, genStacks(1, 1, 2, atoms[:2], []string{"P3S", "CP3S", "P3C"}, kinds)...)
 	// a Condition inside a Condition above a Stack (no way down: the outer expression is no Stack)
 	nested = append(nested, genStacks(1, 1, 2, atoms[:2], []string{"C2S", "C2A"}, kinds)...)
 	// pointers to interface variables (leaves) and to Stack variables (descendable, and re-pointable)
@@ -467,7 +472,7 @@ func init() {
 			maxLen = 4
 		}
 		paths := c07Paths(maxLen, -1, 3)
-		optNames := []string{"default", "neg+fwd", "root-only", "children-only", "flags-after", "locked-down", "errored", "rejecting-validity-below", "rejecting-validity-at-depth-2"}
+		optNames := []string{"default", "neg+fwd", "root-only", "children-only", "flags-after", "locked-down", "errored", "rejecting-validity-below", "rejecting-validity-at-depth-2", "conditions-frozen-after"}
 		c.Rule = "every tree of the bounded family (elements: leaf, nil, empty Stack, Condition(leaf), and nested Stack / alias / pointer-to-alias / Condition(Stack) / Condition(alias) / Condition(Stack) completed after construction; zero alias and nil pointer-to-alias siblings) x 7 option placements (4 for the index options, 3 that switch unrelated flags, mutex, FIFO, read-only, presentation settings or an earlier error on after filling) x every index path of length 0..max with indices in [-1,3]; plus single-child chains of depth 6..14 (thorough: ..33) with every prefix of the way down, every one-index deviation from it and steps beyond a leaf; oracle = stepwise descent written from the statement using the real Index/Convert*/Expression; non-trivial = distinct (tree, options, path) where the stepwise walk fails before the last index or succeeds at depth >= 2"
 		c.Bound["trees"] = len(trees)
 		c.Bound["paths_per_tree"] = len(paths)
